@@ -74,6 +74,9 @@ _GENERIC = [("state-vars", "audited_vars", "pkg_vars", "no package-level state b
 for _p in ("C10", "C11", "C13", "C14", "C17", "C18", "C19", "C20"):
     WHAT.setdefault(_p, [])
     WHAT[_p] = WHAT[_p] + [w for w in _GENERIC if w[0] not in [x[0] for x in WHAT[_p]]]
+_LIT = ("size-literals", "audited_literals", "size_literals", "no size threshold in the source: every integer literal of two or more digits ({size_literals}) is an audited radix / bit-size argument (the models treat every table, key and text size alike)")
+for _p in ("C01", "C02", "C03", "C04", "C05", "C06", "C07", "C08", "C09", "C12", "C15", "C16", "C19", "C20"):
+    WHAT.setdefault(_p, []).append(_LIT)
 WHAT["C19"].append(("state-writes", "audited_writes", 'by_prefix "genql." field_writes', "every assignment to a struct field is by an audited writer (a failed call leaves nothing behind in the query)"))
 WHAT["C20"].append(("state-writes", "audited_writes", 'by_prefix "genql." field_writes', "every assignment to a struct field is by an audited writer (variables are written by SETVAR / WithVars only)"))
 
